@@ -132,3 +132,49 @@ def replay_c17_rs(ctx, obl, info, vals):
     if ok:
         return None
     return 'REPLAYED on the real code (native build of this tree):\n  %s\n  expected from the kernel-documented meaning: signal %d cause %s process %s' % (got, signo, want, wantp)
+
+
+# ---- C11: poll_signal reports Pending without consulting the callback ---------------------------
+C11_MAIN = r'''
+use signal_hook::iterator::backend::{Handle, PollResult, SignalDelivery, SignalIterator};
+use signal_hook::iterator::exfiltrator::SignalOnly;
+use std::borrow::{Borrow, BorrowMut};
+use std::os::unix::net::UnixStream;
+
+// A scheduling point through public API: SignalIterator is generic over BorrowMut<SignalDelivery>;
+// this wrapper calls close() (as another thread could) right before the n-th access.
+struct Sched { sd: SignalDelivery<UnixStream, SignalOnly>, handle: Handle, n: usize, close_at: usize }
+impl Borrow<SignalDelivery<UnixStream, SignalOnly>> for Sched { fn borrow(&self) -> &SignalDelivery<UnixStream, SignalOnly> { &self.sd } }
+impl BorrowMut<SignalDelivery<UnixStream, SignalOnly>> for Sched {
+    fn borrow_mut(&mut self) -> &mut SignalDelivery<UnixStream, SignalOnly> {
+        self.n += 1;
+        if self.n == self.close_at { self.handle.close(); }
+        &mut self.sd
+    }
+}
+fn main() {
+    let mut bad = 0;
+    for close_at in 1..8 {
+        let (r, w) = UnixStream::pair().unwrap();
+        let sd = SignalDelivery::with_pipe(r, w, SignalOnly, &[] as &[i32]).unwrap();
+        let handle = sd.handle();
+        let mut it = SignalIterator::new(Sched { sd, handle, n: 0, close_at });
+        let mut consulted = 0;
+        let mut last = "none";
+        let res = it.poll_signal(&mut |_r: &mut UnixStream| { consulted += 1; last = "Ok(false)"; Ok(false) });
+        let name = match res { PollResult::Pending => "Pending", PollResult::Closed => "Closed", PollResult::Signal(_) => "Signal", PollResult::Err(_) => "Err" };
+        let violates = name == "Pending" && (consulted == 0 || last != "Ok(false)");
+        println!("close() before access #{}: poll_signal => {} ; callback consulted {} time(s), last answer {}{}", close_at, name, consulted, last, if violates { "   <== VIOLATION: pending without an armed wake-up" } else { "" });
+        if violates { bad += 1; }
+    }
+    std::process::exit(if bad > 0 { 1 } else { 0 });
+}
+'''
+
+
+def replay_c11_armed(ctx, obl, info, vals):
+    rc, out = native_run(ctx['scratch'], 'c11', C11_MAIN)
+    lines = [l for l in out.splitlines() if l.startswith('close() before access')]
+    if rc == 1 and any('VIOLATION' in l for l in lines):
+        return 'REPLAYED on the real code (native build of this tree; the schedule "close() lands between the two is_closed loads" is forced through the public BorrowMut parameter of SignalIterator):\n  ' + '\n  '.join(lines)
+    return None
